@@ -14,7 +14,8 @@ RULE = ('exhaustive: all 24 neighbour orderings x {4 heavy neighbours, implicit 
         'choices for alkenes / allenes / cumulenes incl. H ends; random: stereo molecules of the corpus + curated chain / ring / '
         'ring-linker / cumulene cases written in many random SMILES orders and as wedged MDL blocks and judged by RDKit '
         '(canonical isomeric SMILES, CIP labels); all 2^k label combinations of constitutionally asymmetric molecules pairwise '
-        'unequal; labels on non-stereogenic centres dropped after edits; monitors: counting dicts replace the two permutation '
+        'unequal; labels on non-stereogenic centres dropped after edits; one forced label at a time on unlabelled corpus / spiro / '
+        'assembly structures kept exactly when an own constitutional verdict says stereogenic; monitors: counting dicts replace the two permutation '
         'tables and every key must be looked up; non-trivial = molecule with >= 2 stereo elements or a ring stereocentre, '
         'distinct by (canonical string, spelling/order)')
 ASSUMPTIONS = ['CachedMethods compatibility shim', 'RDKit as independent reader of SMILES marks and wedge bonds (carbon '
@@ -24,11 +25,13 @@ CONFIG = {
     'quick': {'shards': 16, 'budget_s': 150, 'n_corpus': 700, 'k_spell': 6,
               'floors': {'evaluations': 8000, 'distinct_nontrivial': 1200, 'perm.tetrahedral': 200, 'perm.axis': 100,
                          'table.tetrahedron-keys': 24, 'table.alkene-keys': 8, 'rdkit.smiles-compared': 3000,
-                         'rdkit.wedge-compared': 300, 'isomers.sets': 40, 'edits.label-dropped': 30}},
+                         'rdkit.wedge-compared': 300, 'isomers.sets': 40, 'edits.label-dropped': 30, 'single-label.compared': 1500,
+                         'single-label.verdict-not-stereogenic': 300, 'single-label.spiro-pairs': 300}},
     'thorough': {'shards': 16, 'budget_s': 1800, 'n_corpus': 4200, 'k_spell': 24,
                  'floors': {'evaluations': 100000, 'distinct_nontrivial': 8000, 'perm.tetrahedral': 200, 'perm.axis': 100,
                             'table.tetrahedron-keys': 24, 'table.alkene-keys': 8, 'rdkit.smiles-compared': 50000,
-                            'rdkit.wedge-compared': 3000, 'isomers.sets': 300, 'edits.label-dropped': 30}},
+                            'rdkit.wedge-compared': 3000, 'isomers.sets': 300, 'edits.label-dropped': 30, 'single-label.compared': 8000,
+                            'single-label.verdict-not-stereogenic': 1500, 'single-label.spiro-pairs': 300}},
 }
 
 
@@ -343,6 +346,120 @@ def label_dropping(ctx):
             ctx.violation('stereoisomers-compare-equal', '%s == %s' % (a, b), {'smiles': a})
 
 
+SPIRO_A = ['C1CC1', 'C1CCC1', 'C1CCCC1', 'C1CCCCC1', 'C1CCCCCC1', 'C1COC1', 'C1CCOCC1', 'C1CCNCC1', 'C1CSC1']     # symmetric about atom 1
+SPIRO_B = ['C1CCCO1', 'C1CCNC1', 'C1COCC1', 'C1CCCCO1', 'C1CCC(=O)N1', 'C1CC(C)CC1', 'C1CCOC1', 'C1CCCC(F)C1', 'C1C=CCC1', 'C1CCC1', 'C1CCCCC1']
+
+
+def _components_without(m, n):
+    """neighbour -> id of its connected component in the graph without atom n"""
+    comp = {}
+    for k, start in enumerate(m._bonds[n]):
+        if start in comp:
+            continue
+        stack = [start]
+        comp[start] = k
+        while stack:
+            x = stack.pop()
+            for y in m._bonds[x]:
+                if y != n and y not in comp:
+                    comp[y] = k
+                    stack.append(y)
+    return comp
+
+
+def stereogenicity_verdict(m, n, cls):
+    """independent verdict for a single label on carbon n of an otherwise unlabelled molecule:
+    True  - four constitutionally different substituents (refinement classes all differ; classes only merge true orbits),
+    False - two singly attached substituents of one class, or a spiro centre one of whose rings is a plain
+            unsubstituted ring entered through two atoms of one class (mirror plane through the centre),
+    None  - anything else (ring para-centres, axial spiro pairs, cages): not judged"""
+    nb = list(m._bonds[n])
+    a = m._atoms[n]
+    h = a.implicit_hydrogens or 0
+    if len(nb) + h != 4 or h > 1:
+        return None
+    keys = [cls[x] for x in nb] + (['H'] if h else [])
+    if len(set(keys)) == 4:
+        return True
+    comp = _components_without(m, n)
+    single = {c for c in set(comp[x] for x in nb) if sum(comp[x] == c for x in nb) == 1}    # branches attached through one bond only
+    for i, x in enumerate(nb):
+        for y in nb[i + 1:]:
+            if cls[x] == cls[y] and comp[x] != comp[y] and comp[x] in single and comp[y] in single:
+                return False
+    if not h and len(nb) == 4 and len(set(comp[x] for x in nb)) == 2:
+        groups = {}
+        for x in nb:
+            groups.setdefault(comp[x], []).append(x)
+        if all(len(g) == 2 for g in groups.values()):
+            for cid, (x, y) in groups.items():
+                members = [z for z, c in comp.items() if c == cid]
+                plain = all(len(m._bonds[z]) == 2 and not m._atoms[z].charge and not m._atoms[z].isotope for z in members)
+                if cls[x] == cls[y] and plain:
+                    (ox, oy), = [g for c2, g in groups.items() if c2 != cid]
+                    oc = [c2 for c2 in groups if c2 != cid][0]
+                    if cls[ox] == cls[oy] and any(len(m._bonds[z]) > 2 for z, c in comp.items() if c == oc):
+                        return 'fused'      # both rings symmetric about n, the second one carries branches / fused rings
+                    return False
+    return None
+
+
+def single_labels(ctx, text, rng, limit=6):
+    """`labels are kept only on centres that are stereogenic`, one centre at a time: the unlabelled structure gets a mark on
+    exactly one carbon (written by RDKit from a forced chiral tag), the library reads it; kept / dropped is compared with the
+    constitutional verdict above"""
+    from rdkit import Chem
+    rd = Chem.MolFromSmiles(text)
+    if rd is None:
+        return
+    Chem.RemoveStereochemistry(rd)
+    base = Chem.MolToSmiles(rd, canonical=False)
+    rd = Chem.MolFromSmiles(base)          # atom indices now follow the written order, as the library's numbering does
+    try:
+        plain = smiles(base)
+    except Exception:
+        return
+    if rd is None or len(plain) != rd.GetNumAtoms() or any(plain._atoms[i + 1].atomic_number != a.GetAtomicNum() or
+                                                           len(plain._bonds[i + 1]) != a.GetDegree() for i, a in enumerate(rd.GetAtoms())):
+        ctx.count('single-label.order-not-aligned')
+        return
+    cls = SY.refine(plain)
+    cand = [a.GetIdx() for a in rd.GetAtoms() if a.GetSymbol() == 'C' and not a.GetIsAromatic() and a.GetTotalDegree() == 4
+            and a.GetDegree() >= 3 and a.GetHybridization() == Chem.HybridizationType.SP3]
+    rng.shuffle(cand)
+    for idx in cand[:limit]:
+        verdict = stereogenicity_verdict(plain, idx + 1, cls)
+        fused = verdict == 'fused'
+        verdict = False if fused else verdict
+        ctx.count('single-label.verdict-%s' % {True: 'stereogenic', False: 'not-stereogenic', None: 'not-judged'}[verdict])
+        if verdict is None:
+            continue
+        rw = Chem.Mol(rd)
+        rw.GetAtomWithIdx(idx).SetChiralTag(Chem.ChiralType.CHI_TETRAHEDRAL_CW if rng.random() < .5 else Chem.ChiralType.CHI_TETRAHEDRAL_CCW)
+        t = Chem.MolToSmiles(rw, canonical=False)
+        if '@' not in t:
+            continue
+        rt = Chem.MolFromSmiles(t, sanitize=False)
+        if rt is None or [x.GetIdx() for x in rt.GetAtoms() if x.GetChiralTag() != Chem.ChiralType.CHI_UNSPECIFIED] != [idx] or \
+                any(x.GetAtomicNum() != y.GetAtomicNum() or x.GetDegree() != y.GetDegree() for x, y in zip(rt.GetAtoms(), rd.GetAtoms())):
+            ctx.count('single-label.order-not-aligned')
+            continue
+        try:
+            m = smiles(t)
+        except Exception as e:
+            ctx.violation('labelled-text-not-readable/%s' % type(e).__name__, '%s: %r' % (t, e), {'smiles': t})
+            continue
+        ctx.evaluations += 1
+        ctx.count('single-label.compared')
+        kept = [k for k, x in m.atoms() if x.stereo is not None]
+        if verdict is False and kept:
+            ctx.violation('label-kept-on-non-stereogenic-centre' + ('/spiro-atom-of-two-symmetric-rings-one-with-ring-stereocentres' if fused else ''),
+                          '%s: label on atom %s kept, its substituents are pairwise equivalent by constitution' % (t, kept), {'smiles': t})
+        elif verdict is True and kept != [idx + 1]:
+            ctx.violation('label-dropped-on-stereogenic-centre', '%s: atom %d has four constitutionally different substituents, labels kept on %s'
+                          % (t, idx + 1, kept), {'smiles': t})
+
+
 def worker(ctx):
     cfg = CONFIG[ctx.tier]
     rng = ctx.rng
@@ -376,6 +493,30 @@ def worker(ctx):
             wedges(ctx, m, s, rng)
         if rng.random() < .35:
             isomer_sets(ctx, m, s, rng)
+    # one label at a time on unlabelled structures: corpus, curated, spiro pairs (symmetric ring x any ring), ring assemblies
+    k = 0
+    for a in SPIRO_A + SPIRO_B:
+        for b in SPIRO_B + SPIRO_A:
+            k += 1
+            if ctx.mine(k):
+                # atom 1 of both ring strings becomes the shared spiro atom
+                ra, rb = a[2:-1], b[2:-1]            # ring bodies without the first atom and the closing digit
+                text = 'C12(%s1)%s2' % (ra, rb)
+                ctx.count('single-label.spiro-pairs')
+                single_labels(ctx, text, rng, limit=3)
+    pool = [c[i] for kk, i in enumerate(ids[:cfg['n_corpus']]) if ctx.mine(kk)] + [x for kk, x in enumerate(G.SPECIAL) if ctx.mine(kk)]
+    for s in pool:
+        if ctx.out_of_time():
+            break
+        single_labels(ctx, s, rng, limit=3)
+    for i in range(cfg['n_corpus'] // ctx.nshards // 2):
+        if ctx.out_of_time():
+            break
+        try:
+            text = format(G.ring_assembly(rng, nrings=rng.randrange(2, 5), max_atoms=25), '!s')
+        except Exception:
+            continue
+        single_labels(ctx, text, rng, limit=4)
     ctx.blobs['tt'] = sorted(map(list, TT.seen))
     ctx.blobs['at'] = sorted(map(list, AT.seen))
 
